@@ -75,6 +75,12 @@ def oracle_reference(case, rec):
         rec.cls('fam=' + case['gen']['fam'])
     if not math.isfinite(got) or abs(got - iref) > t:
         raise Violation(f'mi(Y,X)={got!r} but plug-in MI={iref!r} (tol {t:.2e}), n={n}')
+    if case.get('both'):
+        # plug-in MI is symmetric: the other argument order must give the same reference value (the kernel iterates over the strata
+        # of one argument only, so the two orders exercise different loops)
+        got2 = mi(Xa, Ya)
+        if not math.isfinite(got2) or abs(got2 - iref) > t:
+            raise Violation(f'mi(X,Y)={got2!r} but plug-in MI={iref!r} (tol {t:.2e}), n={n} (arguments in swapped order)')
     if n <= 20000:
         # the same objects scored again (a caller reusing its arrays): still the plug-in MI of the vectors the caller passed
         again = mi(Ya, Xa)
@@ -104,7 +110,7 @@ def oracle_corollaries(case, rec):
         raise Violation(f'self score {sx!r} != H(X)={hx!r}', kind='C01/self')
 
 
-ORACLES = {'C01/exception': oracle_reference, 'C01/max-n': oracle_reference, 'C01/repeat-call': oracle_reference, 'C01/views': oracle_reference, 'C01/high-card': oracle_reference, 'C01/wide': oracle_reference, 'C01/reference': oracle_reference, 'C01/corollaries': oracle_corollaries,
+ORACLES = {'C01/exception': oracle_reference, 'C01/many-strata': oracle_reference, 'C01/max-n': oracle_reference, 'C01/repeat-call': oracle_reference, 'C01/views': oracle_reference, 'C01/high-card': oracle_reference, 'C01/wide': oracle_reference, 'C01/reference': oracle_reference, 'C01/corollaries': oracle_corollaries,
            'C01/exhaustive': oracle_reference}
 for _k in ('symmetry', 'nonneg', 'constant', 'upper', 'self'):
     ORACLES['C01/' + _k] = oracle_corollaries
@@ -212,6 +218,8 @@ def run(ctx):
     ]
     clauses.append(Clause('C01/views', lambda: gens.lagged_pair(), oracle_reference, quick=300, thorough=20000, quick_shards=2))
     clauses.append(Clause('C01/high-card', lambda: gens.highcard_pair(), oracle_reference, quick=24, thorough=600, quick_shards=8))
+    clauses.append(Clause('C01/many-strata', lambda: gens.manystrata_pair(), oracle_reference, quick=2, thorough=32, quick_shards=2,
+                          thorough_shards=16))
     clauses.append(Clause('C01/max-n', lambda: gens.maxn_pair(), oracle_reference, quick=2, thorough=16, quick_shards=2, thorough_shards=8))
     clauses.append(Clause('C01/wide', lambda: gens.wide_pair(), oracle_reference, quick=4, thorough=48, quick_shards=4,
                           thorough_shards=16))
